@@ -10,6 +10,14 @@ COMMON_NOTE = ("Trusted: Lean 4.33 kernel (axioms per theorem are measured on ev
                "execution of model vs. real code; bounded by its generators). ")
 
 CLAIMS = {
+    "C02": dict(
+        text="16 Lean theorems for an arbitrary crypto instance under an ideal-interface hypothesis, adversary = every event list with arbitrary frame bodies: phaseKey_injective (interprets the generated HKDF purpose operands), sealed_opens_only_under_its_label, delivered_was_sealed / delivered_in_honest_record (induction over the run), relabel_reflect_replay_rejected, own_side_is_echo_never_decrypted, pake_reflection_rejected, pake_missing_scared, phase_at_most_once_partial; 19 call skeletons + key-derivation argument lists as decide obligations; tied to two real clients with real SPAKE2/NaCl against the real server objects under 1-3 tamper operations, classified by an independent re-implementation of the key schedule.",
+        note="Partial: 'versions at most once over whole runs' is per-step + oracle only. Modelled not verified: SPAKE2, HKDF, SHA-256, SecretBox (ideal interface); JSON/hex codec abstract; Nameplate/Code not modelled here.",
+        tech="Lean 4 proof (induction over adversary schedules, ideal-crypto interface) + generated operand/skeleton obligations + differential correspondence"),
+    "C03": dict(
+        text="13 Lean theorems over arbitrary traces of the executed step functions: tx_numbering, send_fifo, pending_until_echo, resent_on_every_open (generated Mailbox table), dedup_once, echo_never_delivered, reorder_buffer_prefix (invariant induction over every arrival list), observer_fifo, e2e_prefix / e2e_complete on the abstract Pipe; 26 call skeletons as obligations; components tied to the real Boss/Send/Mailbox/Order/Receive/observer objects, whole-client oracle on two real clients under arbitrary delivery order, duplication, replay and drops.",
+        note="Proof of components + validated composition: client_refines_pipe is not proved in Lean; the composed real client is compared with Pipe by replaying every observed arrival order. Crypto ideal.",
+        tech="Lean 4 proof (invariant inductions over traces) + skeleton agreement + component-level and whole-client differential correspondence"),
     "C04": dict(
         text="16 Lean theorems over an executable Xfer model (sender chunker + running hash + ack check; receiver byte accounting into dest+'.tmp', rename only after xfersize bytes; zip mode) for every content, size incl. 0, chunk size and interleaving: receiver_success_exact, both_success_exact, cut_no_success_no_final, sender_success_needs_matching_ack (iff), honest_run_succeeds; call skeletons of _parse_offer/_transfer_data/_write_file/_send_file are decide obligations; tied to the REAL Sender._send_file / Receiver._parse_offer.._close_transit over two real transit.Connection objects in a sandbox.",
         note="Channel hypothesis = C06 (receiver gets a prefix of the records, then possibly a drop). Trusted: SHA-256 injectivity, zip round trip, json codec, twisted FileSender loop (compared), POSIX rename. Text mode escaping only by oracle (Python repr not modelled). No localhost smoke pair (sockets are excluded).",
